@@ -28,7 +28,7 @@ Qed.
 Lemma in_bypass : forall v E a b, In (a, b) (bypass v E) ->
   (In (a, b) E /\ a <> v /\ b <> v) \/ (In (a, v) E /\ In (v, b) E).
 Proof.
-  intros v E a b H. unfold bypass in H. apply in_app_or in H. destruct H as [H | H].
+  intros v E a b H. unfold bypass in H. apply nodup_In in H. apply in_app_or in H. destruct H as [H | H].
   - apply filter_In in H. destruct H as [H1 H2]. left. split; [assumption|].
     unfold touches in H2. cbn [fst snd] in H2.
     apply negb_true_iff in H2. apply orb_false_iff in H2. destruct H2 as [H2 H3].
@@ -43,14 +43,14 @@ Qed.
 
 Lemma bypass_keep : forall v E a b, In (a, b) E -> a <> v -> b <> v -> In (a, b) (bypass v E).
 Proof.
-  intros v E a b H Ha Hb. unfold bypass. apply in_or_app. left. apply filter_In. split; [assumption|].
+  intros v E a b H Ha Hb. unfold bypass. apply nodup_In. apply in_or_app. left. apply filter_In. split; [assumption|].
   unfold touches. cbn [fst snd]. apply negb_true_iff. apply orb_false_iff.
   split; apply Nat.eqb_neq; assumption.
 Qed.
 
 Lemma bypass_link : forall v E a b, In (a, v) E -> In (v, b) E -> In (a, b) (bypass v E).
 Proof.
-  intros v E a b Ha Hb. unfold bypass. apply in_or_app. right. apply in_flat_map.
+  intros v E a b Ha Hb. unfold bypass. apply nodup_In. apply in_or_app. right. apply in_flat_map.
   exists (a, v). split.
   - apply filter_In. split; [assumption|]. cbn [snd]. apply Nat.eqb_refl.
   - cbn [fst]. apply in_map_iff. exists (v, b). split; [reflexivity|].
@@ -147,9 +147,20 @@ Proof.
   - right. apply in_map_iff. exists (a, b). split; [reflexivity | assumption].
 Qed.
 
+Lemma path_incl : forall E E' a b, incl E E' -> path E a b -> path E' a b.
+Proof.
+  intros E E' a b Hi H. induction H.
+  - apply path1. apply Hi. assumption.
+  - eapply pathS; [apply Hi; eassumption | assumption].
+Qed.
+
 Lemma acyclicb_ranked : forall E, acyclicb E = true -> ranked (inferred_rank E) E.
 Proof.
-  intros E H. unfold inferred_rank. apply elim_ranked; [assumption|]. apply nodes_cover.
+  intros E H. unfold inferred_rank, acyclicb in *.
+  assert (Hr : ranked (rank_of (nodup Nat.eq_dec (nodes E)) (nodup edge_dec E)) (nodup edge_dec E)).
+  { apply elim_ranked; [assumption|]. intros a b Hab. apply nodup_In in Hab.
+    destruct (nodes_cover E a b Hab) as [Ha Hb]. split; apply nodup_In; assumption. }
+  intros a b Hab. apply Hr. apply nodup_In. assumption.
 Qed.
 
 Lemma exists_rank_iff_acyclic : forall E : list edge,
@@ -157,7 +168,9 @@ Lemma exists_rank_iff_acyclic : forall E : list edge,
 Proof.
   intros E.
   assert (H1 : (exists r, ranked r E) -> acyclic E) by (intros [r Hr]; eapply ranked_acyclic; eassumption).
-  assert (H2 : acyclic E -> acyclicb E = true) by (intros H; apply acyclic_elim; assumption).
+  assert (H2 : acyclic E -> acyclicb E = true).
+  { intros H. apply acyclic_elim. intros a Hp. apply (H a). eapply path_incl; [|eassumption].
+    intros x Hx. apply nodup_In in Hx. assumption. }
   assert (H3 : acyclicb E = true -> exists r, ranked r E)
     by (intros H; exists (inferred_rank E); apply acyclicb_ranked; assumption).
   split; split; auto.
@@ -746,17 +759,17 @@ Proof.
   - injection Ha as <- <- <-. split; [reflexivity | assumption].
   - destruct (ana ml a M) as [[M1 E1] o1] eqn:Ha1. destruct (ana ml b M1) as [[M2 E2] o2] eqn:Ha2.
     injection Ha as <- <- <-. apply andb_true_iff in Ho. destruct Ho as [Ho1 Ho2].
-    destruct (IHexec1 _ _ _ _ Ha1 Ho1) as [Hk1 Hi1]; [intros x y Hxy; apply Hr; apply in_or_app; left; assumption | assumption |].
-    destruct (IHexec2 _ _ _ _ Ha2 Ho2) as [Hk2 Hi2]; [intros x y Hxy; apply Hr; apply in_or_app; right; assumption | assumption |].
+    destruct (IHexec1 _ _ _ _ Ha1 Ho1) as [Hk1 Hi1]; [intros x y Hxy; apply Hr; apply nodup_In; apply in_or_app; left; assumption | assumption |].
+    destruct (IHexec2 _ _ _ _ Ha2 Ho2) as [Hk2 Hi2]; [intros x y Hxy; apply Hr; apply nodup_In; apply in_or_app; right; assumption | assumption |].
     split; [|assumption]. rewrite okpathw_app. rewrite (exec_after _ _ _ _ _ H). rewrite Hk1, Hk2. reflexivity.
   - destruct (ana ml a M) as [[M1 E1] o1] eqn:Ha1. destruct (ana ml b M) as [[M2 E2] o2] eqn:Ha2.
     injection Ha as <- <- <-. apply andb_true_iff in Ho. destruct Ho as [Ho1 Ho2].
-    destruct (IHexec _ _ _ _ Ha1 Ho1) as [Hk1 Hi1]; [intros x y Hxy; apply Hr; apply in_or_app; left; assumption | assumption |].
-    split; [assumption|]. intros x Hx. apply in_or_app. left. apply Hi1. assumption.
+    destruct (IHexec _ _ _ _ Ha1 Ho1) as [Hk1 Hi1]; [intros x y Hxy; apply Hr; apply nodup_In; apply in_or_app; left; assumption | assumption |].
+    split; [assumption|]. intros x Hx. apply nodup_In. apply in_or_app. left. apply Hi1. assumption.
   - destruct (ana ml a M) as [[M1 E1] o1] eqn:Ha1. destruct (ana ml b M) as [[M2 E2] o2] eqn:Ha2.
     injection Ha as <- <- <-. apply andb_true_iff in Ho. destruct Ho as [Ho1 Ho2].
-    destruct (IHexec _ _ _ _ Ha2 Ho2) as [Hk1 Hi1]; [intros x y Hxy; apply Hr; apply in_or_app; right; assumption | assumption |].
-    split; [assumption|]. intros x Hx. apply in_or_app. right. apply Hi1. assumption.
+    destruct (IHexec _ _ _ _ Ha2 Ho2) as [Hk1 Hi1]; [intros x y Hxy; apply Hr; apply nodup_In; apply in_or_app; right; assumption | assumption |].
+    split; [assumption|]. intros x Hx. apply nodup_In. apply in_or_app. right. apply Hi1. assumption.
   - destruct (ana ml a M) as [[M1 E1] o1] eqn:Ha1. injection Ha as <- <- <-. split; [reflexivity | assumption].
   - destruct (ana ml a M) as [[M1 E1] o1] eqn:Ha1. injection Ha as <- <- <-.
     pose proof Ho as Hboth. apply andb_true_iff in Ho. destruct Ho as [Ho1 Hinc]. apply inclb_incl in Hinc.
@@ -859,7 +872,7 @@ Proof.
   apply andb_true_iff in Hok. destruct Hok as [Hok Hflags].
   apply andb_true_iff in Hok. destruct Hok as [Hac _].
   unfold held_before_acyclic in Hac. apply acyclicb_ranked in Hac.
-  unfold flags_ok in Hflags. apply andb_true_iff in Hflags. destruct Hflags as [Hflags Hnw].
+  unfold flags_ok in Hflags. cbv zeta in Hflags. apply andb_true_iff in Hflags. destruct Hflags as [Hflags Hnw].
   apply negb_true_iff in Hnw. rewrite forallb_forall in Hflags.
   set (ml := mainlocks_of main t) in *.
   set (ALL := flat_map (fun e => acq_of (snd e)) t).
@@ -867,7 +880,7 @@ Proof.
   set (r := inferred_rank (table_edges main t)) in *.
   assert (Hml : incl ml ALL).
   { unfold ml, mainlocks_of. destruct (main_stmt_in main t) as [[n Hin] | ->]; [|intros x []].
-    intros x Hx. apply in_flat_map. exists (n, main_stmt main t). split; assumption. }
+    intros x Hx. apply nodup_In in Hx. apply in_flat_map. exists (n, main_stmt main t). split; assumption. }
   (* one table entry, one covered path: the discipline holds *)
   assert (Hone : forall me n s p, In (n, s) t -> covered ismain s p ->
             (forall l m, In (Acq l m) p -> In l (needs me)) ->
@@ -877,7 +890,7 @@ Proof.
     pose proof (Hflags _ Hin) as Hf. unfold flag_of, edges_of in *. cbn [snd] in Hf.
     destruct (ana ml s []) as [[M' E] o] eqn:Ha. cbn [fst snd] in *.
     assert (HrE : ranked r E).
-    { intros a b Hab. apply Hac. unfold table_edges. apply in_flat_map. exists (n, s). split; [assumption|].
+    { intros a b Hab. apply Hac. unfold table_edges. cbv zeta. apply in_flat_map. exists (n, s). split; [assumption|].
       unfold edges_of. cbn [snd]. fold ml. rewrite Ha. assumption. }
     destruct (ana_sound r ml ismain _ _ _ _ He _ _ _ _ Ha Hf HrE (incl_refl _)) as [Hk _].
     rewrite okpathw_app in Hk. apply andb_true_iff in Hk. destruct Hk as [Hk _].
@@ -891,7 +904,7 @@ Proof.
       destruct Hcov as [p0 [q [h' [He Hpe]]]].
       assert (Hacq : forall l m, In (Acq l m) p -> In l ml).
       { intros l m Hl. subst p. apply in_app_or in Hl. destruct Hl as [Hl | Hl].
-        - eapply exec_acq_in; [eassumption|]. apply in_or_app. left. eassumption.
+        - unfold ml, mainlocks_of. apply nodup_In. eapply exec_acq_in; [eassumption|]. apply in_or_app. left. eassumption.
         - apply in_map_iff in Hl. destruct Hl as [x [Hx _]]. discriminate. }
       assert (Hnaw : forall j k, ~ In (Await j k) p).
       { intros j k Hj. subst p. apply in_app_or in Hj. destruct Hj as [Hj | Hj].
